@@ -10,6 +10,7 @@ trip for one feature set.
 * `sequence` : `sequence` groups (the rolling interleave of `next_value`)
 * `fixed`    : fields with `init=False` (fixed values)
 * `anyAttrs` : an `Attributes` map (`##any`, `##other`, …)
+* `inherit`  : an element var of declared class `C` holds an instance of a proper subclass (`xsi:type`)
 
 Core Lean only (the driver evaluates the predicates on exported real universes and instances).
 -/
@@ -26,6 +27,7 @@ structure Feat where
   sequence : Bool := false
   fixed : Bool := false
   anyAttrs : Bool := false
+  inherit : Bool := false
 deriving DecidableEq, Repr
 
 /-! ### metadata -/
@@ -72,6 +74,18 @@ def textVarOK (ft : Feat) (ci : ClassInfo) (v : XmlVar) : Bool :=
    | none => false) &&
   (v.init || fixedOK v) && fieldAgreesN ci v
 
+/-- the classes whose instances an element var of declared class `c` may hold -/
+def classesFor (ft : Feat) (Γ : Ctx) (c : ClassId) : List ClassId :=
+  if ft.inherit then c :: (Γ.classes.map (·.id)).filter (fun k => k ≠ c && Γ.isSubclass k c) else [c]
+
+/-- `nsAgree` of fragment F1 for every class a var may hold (see `classesFor`) -/
+def nsAgreeN (ft : Feat) (Γ : Ctx) (m : XmlMeta) (q : QN) : Bool :=
+  m.elementVars.all fun w =>
+    match w.clazz with
+    | none => true
+    | some c => (classesFor ft Γ c).all fun k =>
+        decide ((metaOf Γ k (targetUri q)).map dropQ = (metaOf Γ k (targetUri m.qname)).map dropQ)
+
 def elemVarOK (ft : Feat) (Γ : Ctx) (m : XmlMeta) (ci : ClassInfo) (v : XmlVar) : Bool :=
   v.isElement && varBase ft v && decide (1 ≤ v.index) &&
   decide (m.elements.find? (·.1 = v.qname) = some (v.qname, [v])) &&
@@ -93,9 +107,11 @@ def elemVarOK (ft : Feat) (Γ : Ctx) (m : XmlMeta) (ci : ClassInfo) (v : XmlVar)
    | some c =>
      !v.tokens && decide (v.types = [.cls c]) &&
      (if v.listElement then decide (v.default = .listFactory) else decide (v.default = .none)) &&
-     (match metaOf Γ c (targetUri m.qname) with
-      | some m' => nsAgree Γ m' v.qname
-      | none => false)) &&
+     (metaOf Γ c (targetUri m.qname)).isSome &&
+     (classesFor ft Γ c).all (fun k =>
+       match metaOf Γ k (targetUri m.qname) with
+       | some m' => nsAgreeN ft Γ m' v.qname
+       | none => true)) &&
   (v.init || fixedOK v) && fieldAgreesN ci v
 
 /-- an `Attributes` map: a `dict` field with default `{}` -/
@@ -130,7 +146,7 @@ def metaOK (ft : Feat) (Γ : Ctx) (ci : ClassInfo) (m : XmlMeta) : Bool :=
   -- at most one `Attributes` map
   (m.anyAttributes.isEmpty ||
     (ft.anyAttrs && (match m.anyAttributes with | [av] => mapVarOK ci av | _ => false))) &&
-  decide (m.findAttribute xsiNil = none) &&
+  decide (m.findAttribute xsiNil = none) && (!ft.inherit || decide (m.findAttribute xsiType = none)) &&
   -- every announced wrapper is the wrapper of an element var
   m.wrappers.all (fun ww => m.elementVars.any (fun v => decide (v.wrapperQName = some ww.1))) &&
   m.attributeVars.all (fun v => attrVarOK ft m ci v || (decide (m.anyAttributes = [v]) && mapVarOK ci v)) &&
@@ -174,7 +190,7 @@ def anyAttrValOK (v : Str) : Bool :=
   | (some p, suffix) => p.isEmpty || startsWith suffix ['/', '/']
   | (none, _) => true
 
-/-- the entries of an `Attributes` map: distinct keys that the var admits and that are neither
+/-- the entries of an `Attributes` map: distinct keys that match the namespaces of the var and that are neither
 declared attributes nor `xsi:` attributes; plain values -/
 def mapValOK (Γ : Ctx) (m : XmlMeta) (var : XmlVar) : Val → Bool
   | .attrs kv =>
@@ -222,13 +238,44 @@ def primItemOK (var : XmlVar) (t : PT) : Val → Bool
         decide (var.default = .val (.str [])))))
   | _ => false
 
-/-- the class of a model-typed var: `(nillable class, instance check)` -/
-def clsItemOK (var : XmlVar) (clsNillable : Bool) (rec : Bool → Val → Bool) : Val → Bool
-  | .none => var.nillable && !clsNillable   -- under a nillable class `xsi:nil` is an empty object
-  | y => rec var.nillable y
+/-- the name of a class survives as an `xsi:type` value (`prefix:name` resolved by
+`QNameConverter`): an NCName without white space -/
+def typeNameOK (e : BEnv) (t : QN) : Bool :=
+  let tag := localName t
+  !tag.isEmpty && tag.all (fun ch => ch ≠ ':' && !e.py.isSpace ch) && tag.head? ≠ some '{' &&
+  e.isNCName tag
 
-def elemValOK (e : BEnv) (Γ : Ctx) (m : XmlMeta) (ci : ClassInfo) (var : XmlVar)
-    (rec : ClassId → Bool → Val → Bool) (x : Val) : Bool :=
+/-- an object under an element var of declared class `c` (`pns`: the namespace the parser looks the
+metadata up under): an instance of `c` itself, or (`inh`) of a proper subclass `cls` whose qualified
+name differs from the element name (otherwise no `xsi:type` is written) and leads
+`XmlContext.fetch` from `c` back to `cls`.  `rec cls nl xt` checks the instance. -/
+def objOK (inh : Bool) (Γ : Ctx) (pns : Option Str) (var : XmlVar) (c : ClassId)
+    (rec : ClassId → Bool → Option QN → Val → Bool) (y : Val) : Bool :=
+  match y with
+  | .obj cls _ =>
+    if cls = c then rec c var.nillable none y
+    else
+      inh && Γ.isSubclass cls c &&
+      (match metaOf Γ cls pns with
+       | some ms =>
+         (match ms.targetQName with
+          | some t =>
+            decide (t ≠ var.qname) &&
+            (match Γ.fetch c pns (some t) with
+             | .ok m2 => decide (m2 = ms)
+             | .error _ => false) &&
+            rec cls var.nillable (some t) y
+          | none => false)
+       | none => false)
+  | _ => false
+
+/-- the class of a model-typed var: `(nillable class, instance check)` -/
+def clsItemOK (var : XmlVar) (clsNillable : Bool) (rec : Val → Bool) : Val → Bool
+  | .none => var.nillable && !clsNillable   -- under a nillable class `xsi:nil` is an empty object
+  | y => rec y
+
+def elemValOK (inh : Bool) (e : BEnv) (Γ : Ctx) (m : XmlMeta) (ci : ClassInfo) (var : XmlVar)
+    (rec : ClassId → Bool → Option QN → Val → Bool) (x : Val) : Bool :=
   (var.init || fixedVal var x) &&
   match var.clazz with
   | none =>
@@ -255,12 +302,12 @@ def elemValOK (e : BEnv) (Γ : Ctx) (m : XmlMeta) (ci : ClassInfo) (var : XmlVar
      | some m' =>
        if var.listElement then
          (match x with
-          | .list xs => xs.all (clsItemOK var m'.nillable (rec c))
+          | .list xs => xs.all (clsItemOK var m'.nillable (objOK inh Γ (targetUri m.qname) var c rec))
           | _ => false)
        else
          (match x with
           | .none => (var.nillable && !m'.nillable) || (!var.nillable && fdNone ci var.name)
-          | .obj .. => rec c var.nillable x
+          | .obj .. => objOK inh Γ (targetUri m.qname) var c rec x
           | _ => false))
 
 /-- the text value is written as character data (possibly empty): the start tag is flushed
@@ -286,10 +333,12 @@ def needContent (nl : Bool) (m : XmlMeta) : Bool :=
 that the element is written for a nillable var (then a class that is not nillable itself needs
 some content, otherwise the element is `xsi:nil` and comes back as `None`).
 The `Nat` argument bounds the nesting depth. -/
-def valObjN (e : BEnv) (Γ : Ctx) : Nat → Option Str → ClassId → Bool → Val → Bool
-  | 0, _, _, _, _ => false
-  | n + 1, pns, c, nl, .obj cls fields =>
+def valObjN (inh : Bool) (e : BEnv) (Γ : Ctx) : Nat → Option Str → ClassId → Bool → Option QN → Val → Bool
+  | 0, _, _, _, _, _ => false
+  | n + 1, pns, c, nl, xt, .obj cls fields =>
     decide (cls = c) &&
+    -- written with `xsi:type`: the name must survive, and an `Attributes` map would capture it
+    (match xt with | some t => inh && typeNameOK e t | none => true) &&
     (match Γ.find c with
      | none => false
      | some ci =>
@@ -297,6 +346,7 @@ def valObjN (e : BEnv) (Γ : Ctx) : Nat → Option Str → ClassId → Bool → 
        | none => false
        | some m =>
          decide (fields.map (·.1) = ci.fields.map (·.name)) &&
+         (xt.isNone || m.anyAttributes.isEmpty) &&
          m.attributeVars.all (fun var => attrValOK e Γ m ci var (look fields var.name)) &&
          (match m.text with
           | some tv =>
@@ -304,13 +354,17 @@ def valObjN (e : BEnv) (Γ : Ctx) : Nat → Option Str → ClassId → Bool → 
             (!needContent nl m || textHasData (look fields tv.name))
           | none =>
             m.elementVars.all (fun var =>
-              elemValOK e Γ m ci var (valObjN e Γ n (targetUri m.qname)) (look fields var.name)) &&
+              elemValOK inh e Γ m ci var (valObjN inh e Γ n (targetUri m.qname)) (look fields var.name)) &&
             (!needContent nl m ||
               m.elementVars.any (fun var => emitsChild var (look fields var.name)))))
-  | _ + 1, _, _, _, _ => false
+  | _ + 1, _, _, _, _, _ => false
 
-/-- the value-level side of the fragments (`v.size` bounds the nesting depth of `v`) -/
-def valOK (e : BEnv) (Γ : Ctx) (c : ClassId) (v : Val) : Bool :=
-  valObjN e Γ v.size none c false v
+/-- the value-level side of the fragments (`v.size` bounds the nesting depth of `v`); `inh`: element
+vars may hold instances of proper subclasses of their declared class -/
+def valOKI (inh : Bool) (e : BEnv) (Γ : Ctx) (c : ClassId) (v : Val) : Bool :=
+  valObjN inh e Γ v.size none c false none v
+
+/-- every object is an instance of the declared class of its var -/
+def valOK (e : BEnv) (Γ : Ctx) (c : ClassId) (v : Val) : Bool := valOKI false e Γ c v
 
 end Xs.Bind.FN
